@@ -349,6 +349,9 @@ func runC18(c *eng.Ctx) {
 	c.WhoMayCall("activityManager.BecomeFollower", []string{"server.activityManager.BecomeFollower"}, []string{"server.(*Server).leadershipLost"}, []string{"server.(*Server).leadershipLost"})
 	c.WhoMayCall("SetLastPublishedRaftIndex", []string{"server.activityManager.SetLastPublishedRaftIndex"}, []string{"server.(*Server).apply"}, []string{"server.(*Server).apply"})
 	c.Floor(4)
+	// ---- R15.8 (shared) the configuration keys this property's switches hang on reach their fields
+	ruleConfigWiring(c, "R15.8")
+
 }
 
 func isIndexPhi(v ssa.Value) bool {
